@@ -14,7 +14,10 @@ import (
 	"context"
 	"encoding/json"
 	"fmt"
+	"io"
+	"math"
 	"os"
+	"reflect"
 	"runtime"
 	"sort"
 	"strconv"
@@ -45,7 +48,10 @@ type c07Item struct {
 	W int    `json:"w,omitempty"` // ... then writes W values ...
 	A string `json:"a,omitempty"` // ... then: "" | cancel | cancelnil | panic
 	V string `json:"v,omitempty"` // value of the item itself: "" int | str | struct | nil | nilptr | zero | empty | zerostruct
-	X string `json:"x,omitempty"` // values the mapper writes: "" struct{item,k} | nil | nilptr | zero
+	X string `json:"x,omitempty"` // values the mapper writes: "" struct{item,k} | nil | nilptr | zero | slice (uncomparable)
+	E string `json:"e,omitempty"` // error VALUE given to cancel / returned by a Finish function: "" *c07Err | eof | wrap | val | unc | noout | wrapnoout | cwn | deadline
+	P string `json:"p,omitempty"` // panic value: "" struct | err | str
+	N int    `json:"n,omitempty"` // nested call made by the mapper before its action, with the SAME option slice: 1 MapReduce, 2 Finish
 }
 
 type c07Red struct {
@@ -59,17 +65,26 @@ type c07Red struct {
 }
 
 type c07Case struct {
-	Entry    string    `json:"e"`              // mr void chan foreach finish finishvoid
-	HasW     bool      `json:"hw,omitempty"`   // WithWorkers(W) given
-	W        int       `json:"w,omitempty"`    // may be < 1
-	Items    []c07Item `json:"it"`             //
-	GenPanic int       `json:"gp"`             // -1 none; k: generator panics instead of sending item k (k==len: after the last)
-	GenTail  int       `json:"gt,omitempty"`   // generator sleeps before returning
-	Red      c07Red    `json:"r"`              //
-	Ctx      string    `json:"ctx,omitempty"`  // "" | deadline | cancelled | cancelat
-	CtxAt    int       `json:"at,omitempty"`   // ticks
-	Zero     bool      `json:"zero,omitempty"` // contention mode: every delay is zero
-	Reps     int       `json:"reps,omitempty"` // run the call that many times (fresh bubble each), first failing verdict counts
+	Entry    string    `json:"e"`               // mr void chan foreach finish finishvoid
+	HasW     bool      `json:"hw,omitempty"`    // WithWorkers(W) given
+	W        int       `json:"w,omitempty"`     // may be < 1
+	Items    []c07Item `json:"it"`              //
+	GenPanic int       `json:"gp"`              // -1 none; k: generator panics instead of sending item k (k==len: after the last)
+	GenTail  int       `json:"gt,omitempty"`    // generator sleeps before returning
+	Red      c07Red    `json:"r"`               //
+	Ctx      string    `json:"ctx,omitempty"`   // "" | deadline | cancelled | cancelat
+	CtxAt    int       `json:"at,omitempty"`    // ticks
+	Count    int       `json:"count,omitempty"` // > len(Items): the item list is Items repeated cyclically up to Count items (big inputs from a small description)
+	Dup      bool      `json:"dup,omitempty"`   // every option is given twice, first with another value (the last one counts)
+	Zero     bool      `json:"zero,omitempty"`  // contention mode: every delay is zero
+
+	// Not part of the case: set by c07NewRun when the delays of the case add up to
+	// more than 100 years (many items or values times 30 days): the synctest clock
+	// starts in 2000 and an int64 of nanoseconds ends in 2262 — the Go runtime
+	// crashes ("bad g->status in ready") when a timer overflows. Magnitudes are
+	// then capped at one hour.
+	magCap time.Duration
+	Reps   int `json:"reps,omitempty"` // run the call that many times (fresh bubble each), first failing verdict counts
 }
 
 // Delays are ints in the case. 0..99: that many ticks (1 ms) — small numbers with
@@ -85,7 +100,10 @@ func (c c07Case) ticks(n int) time.Duration {
 		return 0
 	}
 	if n >= c07MagBase && n < c07MagBase+len(c07Mags) {
-		return c07Mags[n-c07MagBase]
+		if d := c07Mags[n-c07MagBase]; c.magCap == 0 || d < c.magCap {
+			return d
+		}
+		return c.magCap
 	}
 	return time.Duration(n) * c07Tick
 }
@@ -105,6 +123,23 @@ func (c c07Case) workers() int {
 		return 1
 	}
 	return c.W
+}
+
+// expanded returns the case with its item list written out (Count).
+func (c c07Case) expanded() c07Case {
+	if c.Count <= len(c.Items) || len(c.Items) == 0 {
+		return c
+	}
+	tail := c.GenPanic == len(c.Items)
+	items := make([]c07Item, c.Count)
+	for i := range items {
+		items[i] = c.Items[i%len(c.Items)]
+	}
+	c.Items = items
+	if tail {
+		c.GenPanic = c.Count
+	}
+	return c
 }
 
 func (c c07Case) hasReducer() bool { return c.Entry == "mr" || c.Entry == "void" || c.Entry == "chan" }
@@ -142,11 +177,83 @@ func c07ItemValue(i int, kind string) any {
 		return ""
 	case "zerostruct":
 		return struct{}{}
+	case "slice": // uncomparable
+		return []int{i}
+	case "map": // uncomparable
+		return map[string]int{"pos": i}
+	case "ptr":
+		p := new(int)
+		*p = i
+		return p
+	case "err": // a value with an Error method
+		return &c07Err{src: "itemvalue", i: i}
 	}
 	return c07IntBase + i
 }
 
-func c07Identifying(kind string) bool { return kind == "" || kind == "str" || kind == "struct" }
+func c07Identifying(kind string) bool {
+	switch kind {
+	case "", "str", "struct", "slice", "map", "ptr", "err":
+		return true
+	}
+	return false
+}
+
+// c07Pos: the position carried by an identifying item value (-1: none).
+func c07Pos(item any) int {
+	switch x := item.(type) {
+	case int:
+		if x >= c07IntBase {
+			return x - c07IntBase
+		}
+	case string:
+		var i int
+		if n, _ := fmt.Sscanf(x, "item-%d", &i); n == 1 {
+			return i
+		}
+	case c07ItemS:
+		return x.Pos
+	case []int:
+		if len(x) == 1 {
+			return x[0]
+		}
+	case map[string]int:
+		if i, ok := x["pos"]; ok {
+			return i
+		}
+	case *int:
+		if x != nil {
+			return *x
+		}
+	case *c07Err:
+		if x != nil && x.src == "itemvalue" {
+			return x.i
+		}
+	}
+	return -1
+}
+
+// c07Key makes any value usable as a map key (uncomparable ones by their rendering).
+func c07Key(v any) any {
+	switch x := v.(type) {
+	case []int:
+		return fmt.Sprintf("[]int%v", x)
+	case map[string]int:
+		return fmt.Sprintf("map%v", x)
+	}
+	return v
+}
+
+func c07Same(a, b any) bool {
+	ta, tb := reflect.TypeOf(a), reflect.TypeOf(b)
+	if ta != tb {
+		return false
+	}
+	if ta == nil || ta.Comparable() {
+		return a == b
+	}
+	return reflect.DeepEqual(a, b)
+}
 
 func c07WrittenValue(i, k int, kind string) any {
 	switch kind {
@@ -156,6 +263,8 @@ func c07WrittenValue(i, k int, kind string) any {
 		return (*c07Val)(nil)
 	case "zero":
 		return 0
+	case "slice":
+		return []int{i, k}
 	}
 	return c07Val{I: i, K: k}
 }
@@ -166,13 +275,15 @@ func (r *c07Run) claim(item any) int {
 	r.mu.Lock()
 	defer r.mu.Unlock()
 	items := r.c.Items
-	for i := range items {
-		if c07Identifying(items[i].V) && c07ItemValue(i, items[i].V) == item {
-			return i // may be claimed more than once: counted in mapped[i]
-		}
+	if i := c07Pos(item); i >= 0 && i < len(items) && c07Identifying(items[i].V) &&
+		reflect.TypeOf(item) == reflect.TypeOf(c07ItemValue(i, items[i].V)) {
+		return i // may be claimed more than once: counted in mapped[i]
 	}
-	for i := range items {
-		if !c07Identifying(items[i].V) && !r.claimed[i] && c07ItemValue(i, items[i].V) == item {
+	for r.claimFrom < len(items) && (c07Identifying(items[r.claimFrom].V) || r.claimed[r.claimFrom]) {
+		r.claimFrom++
+	}
+	for i := r.claimFrom; i < len(items); i++ {
+		if !c07Identifying(items[i].V) && !r.claimed[i] && c07Same(c07ItemValue(i, items[i].V), item) {
 			r.claimed[i] = true
 			return i
 		}
@@ -239,6 +350,8 @@ type c07Run struct {
 	written map[any]int
 	seen    map[any]int
 	claimed map[int]bool
+	// positions below claimFrom are identifying or claimed
+	claimFrom int
 	// longest virtual time a mapper spent inside Writer.Write (blocked on the collector)
 	maxWriteWait time.Duration
 	unclaimed    []string
@@ -246,8 +359,10 @@ type c07Run struct {
 	generated    int
 	genDone      bool
 
-	errs   []*c07Err
-	redErr *c07Err
+	errs     []error
+	redErr   error
+	opts     []mr.Option
+	nestFail string
 
 	// see hurryUp
 	ctx       context.Context
@@ -351,7 +466,69 @@ func (r *c07Run) exit() {
 	r.mu.Unlock()
 }
 
-func (r *c07Run) act(a, src string, i int, err *c07Err, cancel func(error)) {
+type c07ValErr struct{ I int } // a comparable value-type error
+
+func (e c07ValErr) Error() string { return fmt.Sprintf("c07 value error %d", e.I) }
+
+type c07UncErr struct{ Tag []int } // an UNcomparable error type
+
+func (e c07UncErr) Error() string { return fmt.Sprintf("c07 uncomparable error %v", e.Tag) }
+
+type c07PanicErr struct{ c07Panic }
+
+func (e *c07PanicErr) Error() string { return fmt.Sprintf("c07 panic error %v", e.c07Panic) }
+
+// c07ErrValue: the error value of a kind (one instance per run and source).
+func c07ErrValue(kind, src string, i int) error {
+	switch kind {
+	case "eof":
+		return io.EOF
+	case "wrap":
+		return fmt.Errorf("c07 wrapped %s/%d: %w", src, i, io.ErrUnexpectedEOF)
+	case "val":
+		return c07ValErr{I: i}
+	case "unc":
+		return c07UncErr{Tag: []int{i}}
+	case "noout": // e.g. the error of an inner MapReduce handed on to the outer cancel
+		return mr.ErrReduceNoOutput
+	case "wrapnoout":
+		return fmt.Errorf("inner call %s/%d: %w", src, i, mr.ErrReduceNoOutput)
+	case "cwn":
+		return mr.ErrCancelWithNil
+	case "deadline":
+		return context.DeadlineExceeded
+	}
+	return &c07Err{src: src, i: i}
+}
+
+func c07PanicValue(kind, src string, i int) any {
+	switch kind {
+	case "err":
+		return &c07PanicErr{c07Panic{Src: src, I: i}}
+	case "str":
+		return fmt.Sprintf("c07panic:%s/%d", src, i)
+	}
+	return c07Panic{Src: src, I: i}
+}
+
+func c07UserPanic(pv any) bool {
+	switch x := pv.(type) {
+	case c07Panic, *c07PanicErr:
+		return true
+	case string:
+		return strings.HasPrefix(x, "c07panic:")
+	}
+	return false
+}
+
+func (r *c07Run) panicKind(i int) string {
+	if i >= 0 && i < len(r.c.Items) {
+		return r.c.Items[i].P
+	}
+	return ""
+}
+
+func (r *c07Run) act(a, src string, i int, err error, cancel func(error)) {
 	switch a {
 	case "cancel":
 		r.log(c07Event{kind: "cancel", src: src, err: err})
@@ -360,7 +537,7 @@ func (r *c07Run) act(a, src string, i int, err *c07Err, cancel func(error)) {
 		r.log(c07Event{kind: "cancel", src: src, err: mr.ErrCancelWithNil})
 		r.userCancel(cancel, nil)
 	case "panic":
-		pv := c07Panic{Src: src, I: i}
+		pv := c07PanicValue(r.panicKind(i), src, i)
 		r.log(c07Event{kind: "panic", src: src, pv: pv})
 		panic(pv)
 	}
@@ -388,6 +565,50 @@ func (r *c07Run) generate(source chan<- any, mayPanic bool) {
 	r.genSleep(r.c.GenTail)
 }
 
+// nested: a mapper (or Finish function) makes an mr call of its own, with the very
+// option slice of the outer call. Its result must be right unless the shared
+// context is done.
+func (r *c07Run) nested(kind int) {
+	fail := func(format string, a ...any) {
+		r.mu.Lock()
+		if r.nestFail == "" {
+			r.nestFail = fmt.Sprintf(format, a...)
+		}
+		r.mu.Unlock()
+	}
+	switch kind {
+	case 1:
+		v, err := mr.MapReduce(func(source chan<- any) {
+			for i := 1; i <= 3; i++ {
+				source <- i
+			}
+		}, func(item any, w mr.Writer, _ func(error)) {
+			w.Write(item.(int) * item.(int))
+		}, func(pipe <-chan any, w mr.Writer, _ func(error)) {
+			sum := 0
+			for x := range pipe {
+				sum += x.(int)
+			}
+			w.Write(sum)
+		}, r.opts...)
+		if r.ctx.Err() != nil && (err == context.DeadlineExceeded || err == mr.ErrReduceNoOutput) {
+			// the shared context is done. (Already done when the inner call started:
+			// its select may also see "finished" first — the tie the oracle accepts
+			// everywhere — and every write was dropped: ErrReduceNoOutput.)
+			return
+		}
+		if err != nil || v != any(14) {
+			fail("nested MapReduce returned (%v, %v), want (14, nil)", v, err)
+		}
+	case 2:
+		var a, b int32
+		err := mr.Finish(func() error { atomic.AddInt32(&a, 1); return nil }, func() error { atomic.AddInt32(&b, 1); return nil })
+		if err != nil || atomic.LoadInt32(&a) != 1 || atomic.LoadInt32(&b) != 1 {
+			fail("nested Finish: err=%v, ran %d/%d times", err, a, b)
+		}
+	}
+}
+
 func (r *c07Run) mapper(item any, w mr.Writer, cancel func(error)) {
 	i := r.claim(item)
 	if i < 0 {
@@ -400,7 +621,7 @@ func (r *c07Run) mapper(item any, w mr.Writer, cancel func(error)) {
 	for k := 0; k < it.W; k++ {
 		v := c07WrittenValue(i, k, it.X)
 		r.mu.Lock()
-		r.written[v]++
+		r.written[c07Key(v)]++
 		r.mu.Unlock()
 		t0 := r.now()
 		w.Write(v)
@@ -412,6 +633,7 @@ func (r *c07Run) mapper(item any, w mr.Writer, cancel func(error)) {
 			r.mu.Unlock()
 		}
 	}
+	r.nested(it.N)
 	r.act(it.A, fmt.Sprintf("item%d", i), i, r.errs[i], cancel)
 }
 
@@ -449,7 +671,7 @@ func (r *c07Run) reducer(pipe <-chan any, w mr.Writer, cancel func(error)) {
 		n := 0
 		for v := range pipe {
 			r.mu.Lock()
-			r.seen[v]++
+			r.seen[c07Key(v)]++
 			r.mu.Unlock()
 			n++
 			r.sleep(rd.D)
@@ -475,7 +697,7 @@ func c07Call(f func()) (pv any, panicked bool) {
 
 func (r *c07Run) horizon() time.Duration {
 	c := r.c
-	const max = 200 * 365 * 24 * time.Hour
+	const max = 150 * 365 * 24 * time.Hour
 	h := 17 * c07Tick
 	add := func(d time.Duration, times int) {
 		for i := 0; i < times && h < max; i++ {
@@ -543,11 +765,18 @@ func (r *c07Run) run() {
 	r.ctx = ctx
 	var opts []mr.Option
 	if c.HasW {
+		if c.Dup {
+			opts = append(opts, mr.WithWorkers(c.W+3))
+		}
 		opts = append(opts, mr.WithWorkers(c.W))
 	}
 	if c.Ctx != "" {
+		if c.Dup {
+			opts = append(opts, mr.WithContext(context.Background()))
+		}
 		opts = append(opts, mr.WithContext(ctx))
 	}
+	r.opts = opts
 	gen := func(source chan<- any) { r.generate(source, true) }
 
 	var val any
@@ -577,6 +806,7 @@ func (r *c07Run) run() {
 					r.enter(i)
 					defer r.exit()
 					r.sleep(it.D)
+					r.nested(it.N)
 					switch it.A {
 					case "cancel":
 						r.log(c07Event{kind: "cancel", src: fmt.Sprintf("item%d", i), err: r.errs[i]})
@@ -664,10 +894,15 @@ func (r *c07Run) disturbing(upTo time.Duration) []c07Event {
 // ---------------------------------------------------------------- oracle
 
 func c07NewRun(c c07Case) *c07Run {
+	c = c.expanded()
+	c.magCap = 0
+	if (&c07Run{c: c}).horizon() > 100*365*24*time.Hour {
+		c.magCap = time.Hour
+	}
 	r := &c07Run{c: c, mapped: map[int]int{}, written: map[any]int{}, seen: map[any]int{}, claimed: map[int]bool{},
 		redErr: &c07Err{src: "reducer"}}
 	for i := range c.Items {
-		r.errs = append(r.errs, &c07Err{src: "item", i: i})
+		r.errs = append(r.errs, c07ErrValue(c.Items[i].E, "item", i))
 	}
 	return r
 }
@@ -743,6 +978,44 @@ func (r *c07Run) judge(res kit.BubbleResult) (v kit.Verdict) {
 	if c.Red.RV == "nil" {
 		cls["result:nil(unspecified)"] = true
 	}
+	fin := c.Entry == "finish" || c.Entry == "finishvoid"
+	for _, it := range c.Items {
+		if !fin {
+			switch it.V {
+			case "slice", "map":
+				cls["item:uncomparable"] = true
+			case "ptr", "err":
+				cls["item:pointer/error-typed"] = true
+			}
+			if it.X == "slice" && it.W > 0 && c.hasReducer() {
+				cls["written:uncomparable"] = true
+			}
+		}
+		if it.A == "cancel" && it.E != "" && c.Entry != "foreach" && c.Entry != "finishvoid" {
+			cls["cancel-error:"+it.E] = true
+		}
+		if it.A == "panic" && it.P != "" {
+			cls["panic-value:"+it.P] = true
+		}
+		if it.N != 0 && c.Entry != "foreach" && c.Entry != "finishvoid" {
+			cls["nested-call"] = true
+		}
+		if it.W >= 100 && c.hasReducer() {
+			cls["writes>=100-per-item"] = true
+		}
+	}
+	if c.Dup && (c.HasW || c.Ctx != "") && !fin {
+		cls["options-given-twice"] = true
+	}
+	if w >= 100 && !fin {
+		cls["workers>=100"] = true
+	}
+	if n >= 1000 {
+		cls["items>=1000"] = true
+	}
+	if fin && n >= 100 {
+		cls["finish-functions>=100"] = true
+	}
 	switch {
 	case r.maxWriteWait > 5*time.Second:
 		cls["writer-blocked>5s-on-slow-reducer"] = true
@@ -765,7 +1038,7 @@ func (r *c07Run) judge(res kit.BubbleResult) (v kit.Verdict) {
 	}
 	userPanicRaised := false
 	if r.returned && r.out.kind == "panic" {
-		_, userPanicRaised = r.out.pv.(c07Panic)
+		userPanicRaised = c07UserPanic(r.out.pv)
 	}
 	// Known finding: onceChan.write blocks for ever when nobody receives from
 	// panicChan any more (the caller has left its select). Exactly the runs with
@@ -850,6 +1123,9 @@ func (r *c07Run) judge(res kit.BubbleResult) (v kit.Verdict) {
 		if k > r.written[val] {
 			return v.Failf("value %#v reached the reducer %d times, written %d times", val, k, r.written[val])
 		}
+	}
+	if r.nestFail != "" {
+		return v.Failf("%s", r.nestFail)
 	}
 	if r.max > w {
 		return v.Failf("%d mappers ran at the same time, workers=%d", r.max, w)
@@ -967,7 +1243,7 @@ func (r *c07Run) outClass() string {
 		return "cancel-error"
 	}
 	if r.out.kind == "panic" {
-		if _, ok := r.out.pv.(c07Panic); ok {
+		if c07UserPanic(r.out.pv) {
 			return "panic-reraised"
 		}
 		return "panic-double-write"
@@ -1033,7 +1309,7 @@ func (r *c07Run) normalOutcome() string {
 			return fmt.Sprintf("reducer wrote one value, want it returned, got %v", o)
 		default:
 			if o.kind == "panic" {
-				if _, user := o.pv.(c07Panic); !user {
+				if !c07UserPanic(o.pv) {
 					return ""
 				}
 			}
@@ -1107,9 +1383,9 @@ func (r *c07Run) disturbedOutcome(dist []c07Event, cls map[string]bool) string {
 	match := func(e c07Event) bool {
 		switch e.kind {
 		case "cancel":
-			return e.ts == minCancel && o.kind == "err" && o.err == e.err
+			return e.ts == minCancel && o.kind == "err" && c07Same(o.err, e.err)
 		case "panic":
-			return o.kind == "panic" && o.pv == e.pv
+			return o.kind == "panic" && c07Same(o.pv, e.pv)
 		case "ctx":
 			if c.Entry == "foreach" {
 				return o.kind == "ok"
@@ -1129,7 +1405,7 @@ func (r *c07Run) disturbedOutcome(dist []c07Event, cls map[string]bool) string {
 	if _, wle, _ := r.writes(r.tret); !strict && wle >= 2 && o.kind == "panic" && (c.Entry == "mr" || c.Entry == "chan") {
 		// "writing twice panics in the caller": both writes were delivered, whatever
 		// else had happened (e.g. a cancel call still waiting for the generator)
-		if _, user := o.pv.(c07Panic); !user {
+		if !c07UserPanic(o.pv) {
 			cls["double-write-decided"] = true
 			return ""
 		}
@@ -1181,12 +1457,17 @@ func c07Gen(zero bool) func(rt *rapid.T) c07Case {
 			switch rapid.IntRange(0, 9).Draw(rt, "wkind") {
 			case 0:
 			case 1:
-				c.HasW, c.W = true, c07Pick(rt, "wlow", 0, -1, -7)
+				c.HasW, c.W = true, c07Pick(rt, "wlow", 0, -1, -7, math.MinInt64)
+			case 2:
+				c.HasW, c.W = true, c07Pick(rt, "whigh", 100, 255, 256, 1000, 65536)
 			default:
 				c.HasW, c.W = true, rapid.IntRange(1, 8).Draw(rt, "w")
 			}
 		}
 		w := c.workers()
+		if w > 16 {
+			w = 16 // item counts stay moderate; Count supplies the big ones
+		}
 		n := 0
 		if fin {
 			n = rapid.IntRange(0, 8).Draw(rt, "n")
@@ -1216,8 +1497,10 @@ func c07Gen(zero bool) func(rt *rapid.T) c07Case {
 		ones := rapid.Bool().Draw(rt, "ones")
 		// item / written values as a dimension (identity is the position, see claim)
 		mixed := !fin && rapid.IntRange(0, 3).Draw(rt, "values") < 2
-		vkinds := []string{"nil", "", "nilptr", "zero", "", "str", "struct", "empty", "zerostruct"}
-		xkinds := []string{"nil", "", "", "nilptr", "zero"}
+		vkinds := []string{"nil", "", "nilptr", "zero", "", "str", "struct", "empty", "zerostruct", "slice", "map", "ptr", "err"}
+		xkinds := []string{"nil", "", "", "nilptr", "zero", "slice"}
+		ekinds := []string{"", "eof", "wrap", "val", "unc", "noout", "wrapnoout", "cwn", "deadline"}
+		errKinds := rapid.IntRange(0, 3).Draw(rt, "errkinds") == 0
 		// delay magnitudes: mostly small tick counts (many ties); in a quarter of the
 		// cases every delay may also be one of the scale-free magnitudes
 		mags := rapid.IntRange(0, 3).Draw(rt, "mags") == 0
@@ -1291,6 +1574,23 @@ func c07Gen(zero bool) func(rt *rapid.T) c07Case {
 				}
 			}
 		}
+		// re-entrancy: a mapper / Finish function makes an mr call of its own
+		if n > 0 && c.Entry != "foreach" && c.Entry != "finishvoid" && rapid.IntRange(0, 7).Draw(rt, "nest") == 0 {
+			for j := rapid.IntRange(1, 2).Draw(rt, "nnest"); j > 0; j-- {
+				c.Items[rapid.IntRange(0, n-1).Draw(rt, "ni")].N = rapid.IntRange(1, 2).Draw(rt, "nk")
+			}
+		}
+		c.Dup = !fin && rapid.IntRange(0, 5).Draw(rt, "dup") == 0
+		// magnitudes of counts: many items / Finish functions / written values from a small description
+		if n > 0 && rapid.IntRange(0, 149).Draw(rt, "big") == 97 {
+			if fin {
+				c.Count = c07Pick(rt, "bigfin", 100, 1000)
+			} else if c.hasReducer() && rapid.Bool().Draw(rt, "bigw") {
+				c.Items[rapid.IntRange(0, n-1).Draw(rt, "bi")].W = c07Pick(rt, "bigwr", 100, 1000)
+			} else {
+				c.Count = c07Pick(rt, "bigcount", 1000, 4097, 1000, 10000)
+			}
+		}
 		if c.Red.Early+c.Red.Late > 0 && rapid.IntRange(0, 5).Draw(rt, "rv") == 0 {
 			c.Red.RV = "nil"
 		}
@@ -1307,6 +1607,12 @@ func c07Gen(zero bool) func(rt *rapid.T) c07Case {
 				for j := 0; j < k; j++ {
 					i := rapid.IntRange(0, n-1).Draw(rt, "di")
 					c.Items[i].A = rapid.SampledFrom(acts).Draw(rt, "da")
+					if errKinds && c.Items[i].A == "cancel" {
+						c.Items[i].E = rapid.SampledFrom(ekinds).Draw(rt, "de")
+					}
+					if errKinds && c.Items[i].A == "panic" {
+						c.Items[i].P = rapid.SampledFrom([]string{"err", "str", ""}).Draw(rt, "dp")
+					}
 				}
 			}
 			if c.hasReducer() && rapid.IntRange(0, 3).Draw(rt, "ract") == 0 {
